@@ -1,6 +1,7 @@
 package main
 
 import (
+	"context"
 	"fmt"
 	"net"
 	"net/http"
@@ -375,4 +376,56 @@ func upselRecoverHistory() {
 	emit("upsel", "recover", b2s(prim.up), itoa(int64(c1)), hx(b1), itoa(int64(c2)), itoa(int64(c3)), hx(b3), itoa(int64(c4)), hx(b4))
 	upstream.Reset(nil)
 	stat("recover-histories")
+	upselSlowRequestHistory()
+}
+
+// directed history: a healthy primary and a backup; ONE request is slow (the location's proxy timeout ends it with an
+// error) and one client goes away in the middle of its request.  Neither says anything about the server's health: its
+// health checks keep passing, so the requests that follow are still served by the primary.
+func upselSlowRequestHistory() {
+	prim := httptest.NewServer(http.HandlerFunc(func(w http.ResponseWriter, r *http.Request) {
+		if strings.HasPrefix(r.URL.Path, "/slow") {
+			select {
+			case <-r.Context().Done():
+			case <-time.After(1200 * time.Millisecond):
+			}
+		}
+		w.Header().Set("Cache-Control", "no-store")
+		fmt.Fprint(w, "primary")
+	}))
+	defer prim.Close()
+	backup := httptest.NewServer(http.HandlerFunc(func(w http.ResponseWriter, r *http.Request) {
+		w.Header().Set("Cache-Control", "no-store")
+		fmt.Fprint(w, "backup")
+	}))
+	defer backup.Close()
+	ucfg := []config.UpstreamConfig{{Name: "u1", Policy: "first", Servers: []config.UpstreamServerConfig{{Addr: prim.URL}, {Addr: backup.URL, Backup: true}}}}
+	locs := []config.LocationConfig{{Name: "l1", Upstream: "u1", ProxyTimeout: "200ms"}}
+	p := newPipeline(100, "1s", false, serverOption(), locs, ucfg)
+	upstream.Reset(nil)
+	upstream.Reset(ucfg)
+	waitUpstreamHealthy("u1")
+	k := 0
+	one := func(path string) (int, string) {
+		k++
+		w := p.do("GET", "x.test", fmt.Sprintf("%s/%d", path, k), nil, nil)
+		return w.Code, w.Body.String()
+	}
+	c1, b1 := one("/fast")
+	c2, _ := one("/slow") // ended by the proxy timeout
+	c3, b3 := one("/fast")
+	// a client that gives up after 60 ms
+	{
+		k++
+		req := buildRequest("GET", "x.test", fmt.Sprintf("/slow/%d", k), nil, nil)
+		ctx, cancel := context.WithTimeout(req.Context(), 60*time.Millisecond)
+		w := httptest.NewRecorder()
+		p.e.ServeHTTP(w, req.WithContext(ctx))
+		cancel()
+	}
+	c4, b4 := one("/fast")
+	c5, b5 := one("/fast")
+	emit("upsel", "slowreq", itoa(int64(c1)), hx(b1), itoa(int64(c2)), itoa(int64(c3)), hx(b3), itoa(int64(c4)), hx(b4), itoa(int64(c5)), hx(b5))
+	upstream.Reset(nil)
+	stat("slow-request-histories")
 }
